@@ -5,7 +5,10 @@
 (*                                                                         *)
 (* Concretely (done by the harness, worlds.py) the data matrix is          *)
 (*       X = c * U diag(sqrt(s2)) V^H + 1 shift^T                           *)
-(* with U (n x p) orthonormal and orthogonal to the constant vector.       *)
+(* with U (n x p) orthonormal and orthogonal to the constant vector        *)
+(* (constmode: the first column of U IS the normalised constant vector, so *)
+(* that an analysis without centring works on data with a non-zero mean;   *)
+(* the uncentred decomposition is still U, s2, V exactly).                 *)
 (*   kind = "perm": V is a signed permutation/identity, so feature j       *)
 (*                  carries mode j and per-feature options (weights,       *)
 (*                  cos-latitude, standardisation) act on one mode each;   *)
@@ -162,17 +165,19 @@ Admissible(c) ==
           /\ (c.solver # "full") => (c.wp = "ones" /\ c.lp = "none" /\ ~c.std)
           /\ (c.dtype = "complex") => (c.lp = "none" /\ (c.wp = "ones" \/ c.solver = "full"))
     /\ P(c) <= 6
+    \* the constant direction as a mode: only meaningful (and only exact) without centring and standardising
+    /\ c.constmode => (~c.center /\ ~c.std /\ c.rel = "none" /\ ~IsFrac(c) /\ c.s2[1] > 0)
 
 Init ==
     /\ phase = "cfg"
     /\ pred = [k |-> 0]
     /\ \E n \in Ns, s2 \in Spectra, center \in BOOLEAN, std \in BOOLEAN, wp \in WPatterns, lp \in LPatterns,
           frac \in Fracs, irr \in Irrs, kind \in Kinds, rel \in Rels, dtype \in Dtypes, solver \in Solvers,
-          cexp \in Cexps, wide \in BOOLEAN :
+          cexp \in Cexps, wide \in BOOLEAN, constmode \in BOOLEAN :
           \E k \in 1..Len(s2) :
              /\ cfg = [n |-> n, s2 |-> s2, center |-> center, std |-> std, wp |-> wp, lp |-> lp,
                        k |-> k, frac |-> frac, irr |-> irr, kind |-> kind, rel |-> rel,
-                       dtype |-> dtype, solver |-> solver, cexp |-> cexp, wide |-> wide]
+                       dtype |-> dtype, solver |-> solver, cexp |-> cexp, wide |-> wide, constmode |-> constmode]
              /\ Admissible(cfg)
 
 Fit == /\ phase = "cfg"
